@@ -397,8 +397,10 @@ func (r *tileHashReader) ReadHashes(indexes []int64) ([]Hash, error) {
 		return nil, fmt.Errorf("downloaded inconsistent tile")
 	}
 
-	// Authenticate full tiles against their parents.
-	for i := len(stx); i < len(tiles); i++ {
+	// Authenticate the remaining full tiles against their parents.
+	// The tree hash tiles are deduplicated, so they occupy
+	// tiles[:stxTileOrder[len(stx)-1]+1], which can be fewer than len(stx).
+	for i := stxTileOrder[len(stx)-1] + 1; i < len(tiles); i++ {
 		tile := tiles[i]
 		p := tileParent(tile, 1, r.tree.N)
 		j, ok := tileOrder[p]
